@@ -5,7 +5,6 @@ From FB Require Import C17.Model C17.AttrTable.
 (* ---------- the specification side: which interest flag governs which attribute ----------
    Written by hand from JVMS 4.7 (attribute names) and duke's *Interests structs (one flag per
    attribute; StackMap is the CLDC predecessor of StackMapTable and shares its flag). *)
-Definition s (l : list N) : str := l.
 
 Definition nDeprecated : str := [68;101;112;114;101;99;97;116;101;100].
 Definition nSynthetic : str := [83;121;110;116;104;101;116;105;99].
